@@ -166,6 +166,9 @@ func (e *fnEnc) bumpClock() {
 
 func (e *fnEnc) alloc(i *ssa.Alloc) {
 	n := e.freshRef(i)
+	if !i.Heap {
+		e.localAllocs = append(e.localAllocs, n)
+	}
 	T := i.Type().Underlying().(*types.Pointer).Elem()
 	e.storePtr(n, T, e.S().Zero(T))
 	e.initBufIfBuffer(n, T)
@@ -757,6 +760,13 @@ func (e *fnEnc) mapUpdate(i *ssa.MapUpdate) {
 func (e *fnEnc) makeInterface(i *ssa.MakeInterface) {
 	x := e.term(i.X)
 	tag := e.S().Tag(i.X.Type())
+	if _, isPtr := i.X.Type().Underlying().(*types.Pointer); isPtr {
+		// convention checked at every producer in swept code and assumed at every type assertion:
+		// a typed nil pointer is never stored in an interface value
+		if _, isAlloc := i.X.(*ssa.Alloc); !isAlloc {
+			e.safety("nil", "typed-nil-in-interface", fmt.Sprintf("(not (= %s 0))", x), i.Pos(), "typed nil pointer stored in an interface value")
+		}
+	}
 	e.setVal(i, fmt.Sprintf("(mk-ifc %d %s)", tag, e.box(x, i.X.Type())))
 }
 
@@ -800,6 +810,9 @@ func (e *fnEnc) typeAssert(i *ssa.TypeAssert) {
 	} else {
 		ok = fmt.Sprintf("(= (i-tag %s) %d)", x, e.S().Tag(i.AssertedType))
 		val = e.unbox(fmt.Sprintf("(i-ref %s)", x), i.AssertedType)
+	}
+	if _, isPtr := i.AssertedType.Underlying().(*types.Pointer); isPtr {
+		e.vc.assume(sImp(ok, fmt.Sprintf("(not (= %s 0))", val)))
 	}
 	if i.CommaOk {
 		vn := e.vc.fresh(e.name(i)+".v", e.S().SortOf(i.AssertedType))
